@@ -236,7 +236,7 @@ def cbmc_run(ob, cfile, wd, tag, backend, uw, extra, timeout, mem, group=None):
     cmd = cbmc_base(ob, cfile) + CBMC_FLAGS + BACKENDS[backend] + extra
     if uw: cmd += ['--unwindset', ','.join(uw)]
     outp = os.path.join(wd, '%s.%s.out' % (tag, backend))
-    rc, o, secs, rss = run(cmd, timeout=timeout, mem_gb=mem, stdout_path=outp, group=group)
+    rc, o, secs, rss = run(cmd, timeout=timeout, mem_gb=mem, stdout_path=outp, group=group, env=dict(os.environ, TMPDIR=wd))
     res = {'backend': backend, 'seconds': round(secs, 2), 'rc': rc, 'out': outp}
     props = PROP_RE.findall(o)
     res['props'] = len(props)
